@@ -20,6 +20,9 @@
  *        cjpeg -precision N: reader variant by N, precision re-applied after start_input (cjpeg
  *        re-parses its switches), -lossless 1 when N is not 8 or 12, rows passed on through
  *        buffer / buffer12 / buffer16 by N;  BAD_PRECISION is printed as  cj err BADPREC
+ *   rd   <maxpixels> <is_targa> <hex>
+ *        the reader alone, driven like cjpeg does (8-bit): select_file_type, start_input, get_pixel_rows
+ *        until image_height rows ->  rd ok <w> <h> <comps> <warnings> | s0 s1 ...   |  rd err <NAME>
  *   argv[2] = "fork": every case runs in a forked child; a child that dies prints nothing and the
  *        parent prints  CRASH <how> <first sanitizer line>
  *   cj   <maxpixels> <is_targa> <hex>
@@ -371,6 +374,89 @@ static void cmd_cj(char *p, int with_prec)
   free(outbuf);
 }
 
+static const char *rd_err_name(int code)
+{
+  static char num[32];
+  switch (code) {
+  case JERR_INPUT_EOF: return "EOF";
+  case JERR_INPUT_EMPTY: return "EMPTY";
+  case JERR_GIF_NOT: return "GIF_NOT";
+  case JERR_GIF_EMPTY: return "GIF_EMPTY";
+  case JERR_IMAGE_TOO_BIG: return "TOOBIG";
+  case JERR_GIF_IMAGENOTFOUND: return "GIF_NOIMAGE";
+  case JERR_GIF_CODESIZE: return "GIF_CODESIZE";
+  case JERR_TGA_BADPARMS: return "TGA_BADPARMS";
+  case JERR_TGA_BADCMAP: return "TGA_BADCMAP";
+  case JERR_UNKNOWN_FORMAT: return "UNKNOWN";
+  case JERR_BAD_PRECISION: return "BADPREC";
+  }
+  snprintf(num, sizeof(num), "%d", code);
+  return num;
+}
+
+static void cmd_rd(char *p)
+{
+  struct jpeg_compress_struct cinfo;
+  struct jpeg_error_mgr jerr;
+  cjpeg_source_ptr src = NULL;
+  FILE *volatile f = NULL;
+  int *volatile samples = NULL;
+  long maxpixels;
+  int n = 0, c, is_targa = 0;
+  size_t len, ns = 0, cap = 0, k;
+  unsigned char *bytes;
+  JDIMENSION row = 0;
+  if (sscanf(p, "%ld %d %n", &maxpixels, &is_targa, &n) < 2) { printf("bad case\n"); return; }
+  bytes = unhex(p + n, &len);
+  write_file(tmpname, bytes, len);
+  free(bytes);
+  cinfo.err = jpeg_std_error(&jerr);
+  jerr.error_exit = cj_exit;
+  jerr.emit_message = cj_emit;
+  jpeg_create_compress(&cinfo);
+  if (setjmp(cjb)) {
+    printf("rd err %s\n", rd_err_name(cj_code));
+    jpeg_destroy_compress(&cinfo);
+    if (f) fclose(f);
+    free(samples);
+    return;
+  }
+  cinfo.in_color_space = JCS_RGB;
+  jpeg_set_defaults(&cinfo);
+  f = fopen(tmpname, "rb");
+  if (is_targa) c = 0x00;
+  else {
+    if ((c = getc(f)) == EOF) ERREXIT(&cinfo, JERR_INPUT_EMPTY);
+    ungetc(c, f);
+  }
+  switch (c) {
+  case 'G': src = jinit_read_gif(&cinfo); break;
+  case 0x00: src = jinit_read_targa(&cinfo); break;
+  default: ERREXIT(&cinfo, JERR_UNKNOWN_FORMAT);
+  }
+  src->input_file = f;
+  src->max_pixels = (JDIMENSION)maxpixels;
+  (*src->start_input) (&cinfo, src);
+  (*cinfo.mem->realize_virt_arrays) ((j_common_ptr)&cinfo);
+  while (row < cinfo.image_height) {
+    JDIMENSION nl = (*src->get_pixel_rows) (&cinfo, src), i, j;
+    JDIMENSION rowlen = cinfo.image_width * (JDIMENSION)cinfo.input_components;
+    for (i = 0; i < nl; i++)
+      for (j = 0; j < rowlen; j++) {
+        if (ns == cap) { cap = cap ? cap * 2 : 1024; samples = realloc((void *)samples, cap * sizeof(int)); }
+        samples[ns++] = src->buffer[i][j];
+      }
+    row += nl;
+  }
+  (*src->finish_input) (&cinfo, src);
+  printf("rd ok %u %u %d %ld |", cinfo.image_width, cinfo.image_height, cinfo.input_components, jerr.num_warnings);
+  for (k = 0; k < ns; k++) printf(" %d", samples[k]);
+  printf("\n");
+  jpeg_destroy_compress(&cinfo);
+  fclose(f);
+  free(samples);
+}
+
 static void run_case(char *p)
 {
   if (!strncmp(p, "load ", 5)) cmd_load(p + 5, 0);
@@ -379,6 +465,7 @@ static void run_case(char *p)
   else if (!strncmp(p, "rt ", 3)) cmd_rt(p + 3);
   else if (!strncmp(p, "cj ", 3)) cmd_cj(p + 3, 0);
   else if (!strncmp(p, "cjx ", 4)) cmd_cj(p + 4, 1);
+  else if (!strncmp(p, "rd ", 3)) cmd_rd(p + 3);
   else printf("bad command\n");
 }
 
